@@ -708,9 +708,10 @@ fn gen_hist(a: &HashMap<String, String>) {
                     badname_pct: 0,
                     re_pct: 30,
                 };
-                let ts = g.filter();
+                let value = g.r.random_range(0..4) == 0;
+                let ts = if value { g.value_expr() } else { g.filter() };
                 let fsch = if r.random_range(0..8) == 0 { 3 - sid } else { sid };
-                json!({"op": "exec", "c": c, "fsch": fsch, "ts": ts})
+                json!({"op": if value { "execv" } else { "exec" }, "c": c, "fsch": fsch, "ts": ts})
             } else {
                 let v = gen_val(&mut r, &f.ty, 0);
                 let v = if r.random_range(0..2) == 0 { spoil(&mut r, &v) } else { v };
